@@ -7,7 +7,7 @@
 // fresh thread (a C++ exception is a result like any other).  This is what "the result depends only on the arguments"
 // means for functions that are allowed to keep per-thread scratch, plan caches or memo tables.
 //   usage: purity --prop Cxx  (+ the usual vf options)
-#include "vf.hpp"
+#include "vf_fork.hpp"
 #include <thread>
 
 using namespace vf;
@@ -194,61 +194,64 @@ int main(int argc, char** argv) {
         if (f.prop != prop) continue;
         const int nv = (int)f.var.size();
         std::string chk = "purity." + f.name;
-        // references: each variant as the first call of a fresh thread (twice: must be deterministic)
-        std::vector<Out> fresh((size_t)nv);
-        bool det = true;
-        for (int v = 0; v < nv; ++v) {
-            for (int rep = 0; rep < 2; ++rep) {
-                Out o;
-                std::thread t([&] {
-                    Arena A;
-                    o = call(f.var[(size_t)v], A);
-                });
-                t.join();
-                if (rep == 0) fresh[(size_t)v] = o;
-                else if (!same(fresh[(size_t)v], o)) det = false;
-            }
-        }
-        for (int L = 2; L <= 3; ++L) {
-            int total = 1;
-            for (int i = 0; i < L; ++i) total *= nv;
-            for (int code = 0; code < total; ++code) {
-                std::vector<int> seq;
-                int c = code;
-                for (int i = 0; i < L; ++i) {
-                    seq.push_back(c % nv);
-                    c /= nv;
-                }
-                if (!ctx.take(chk.c_str(), P().kv("fn", f.name).list("seq", seq))) continue;
-                if (!det) {
-                    ctx.fail(f.name.c_str(), "the first call of a fresh thread is not deterministic", "deterministic function");
-                    continue;
-                }
-                ctx.nontrivial();
-                ++ctx.traces;
-                ctx.transitions += (uint64_t)L;
-                std::string err;
-                std::thread t([&] {
-                    Arena A;
-                    for (int i = 0; i < L; ++i) {
-                        Out o = call(f.var[(size_t)seq[(size_t)i]], A);
-                        if (!same(o, fresh[(size_t)seq[(size_t)i]]) && err.empty()) {
-                            size_t k = 0;
-                            const Out& r = fresh[(size_t)seq[(size_t)i]];
-                            while (k < o.size() && k < r.size() && biteq(o[k], r[k])) ++k;
-                            err = fmt("call %d (variant %d) of the sequence returns %zu values, element %zu = %.17g; as the first call of a fresh thread: %zu values, element %zu = %.17g%s", i,
-                                      seq[(size_t)i], o.size(), k, k < o.size() ? o[k] : 0.0, r.size(), k, k < r.size() ? r[k] : 0.0,
-                                      (o.size() == 1 && o[0] == THROWN) ? " (threw)" : ((r.size() == 1 && r[0] == THROWN) ? " (fresh call throws)" : ""));
-                        }
+        if (!ctx.take(chk.c_str(), P().kv("fn", f.name).kv("variants", nv))) continue;
+        // one forked child per function: a call that does not return or corrupts memory is an observed outcome
+        auto o = forked(ctx, f.name.c_str(), 120.0, [&](ChildCtx& c) {
+            // references: each variant as the first call of a fresh thread (twice: must be deterministic)
+            std::vector<Out> fresh((size_t)nv);
+            for (int v = 0; v < nv; ++v) {
+                for (int rep = 0; rep < 2; ++rep) {
+                    Out o;
+                    fb::shm()->prog[0] = -1 - v;
+                    std::thread t([&] {
+                        Arena A;
+                        o = call(f.var[(size_t)v], A);
+                    });
+                    t.join();
+                    if (rep == 0) fresh[(size_t)v] = o;
+                    else if (!same(fresh[(size_t)v], o)) {
+                        c.fail(f.name.c_str(), fmt("variant %d: the first call of a fresh thread is not deterministic", v), "deterministic function");
+                        return;
                     }
-                });
-                t.join();
-                uint64_t h = fnv(chk);
-                for (int s : seq) h = mix(h, (uint64_t)s);
-                ctx.state(h);
-                if (!err.empty()) ctx.fail(f.name.c_str(), err, "bit-identical result: the result depends only on the arguments", P().kv("len", L));
+                }
             }
-        }
+            for (int L = 2; L <= 3; ++L) {
+                int total = 1;
+                for (int i = 0; i < L; ++i) total *= nv;
+                for (int code = 0; code < total; ++code) {
+                    std::vector<int> seq;
+                    int cc = code;
+                    for (int i = 0; i < L; ++i) {
+                        seq.push_back(cc % nv);
+                        cc /= nv;
+                    }
+                    fb::shm()->prog[0] = code + 1000 * L;
+                    ++c.evals;
+                    ++c.nontriv;
+                    std::string err;
+                    std::thread t([&] {
+                        Arena A;
+                        for (int i = 0; i < L; ++i) {
+                            Out o = call(f.var[(size_t)seq[(size_t)i]], A);
+                            if (!same(o, fresh[(size_t)seq[(size_t)i]]) && err.empty()) {
+                                size_t k = 0;
+                                const Out& r = fresh[(size_t)seq[(size_t)i]];
+                                while (k < o.size() && k < r.size() && biteq(o[k], r[k])) ++k;
+                                err = fmt("call %d (variant %d) of the sequence returns %zu values, element %zu = %.17g; as the first call of a fresh thread: %zu values, element %zu = %.17g%s",
+                                          i, seq[(size_t)i], o.size(), k, k < o.size() ? o[k] : 0.0, r.size(), k, k < r.size() ? r[k] : 0.0,
+                                          (o.size() == 1 && o[0] == THROWN) ? " (threw)" : ((r.size() == 1 && r[0] == THROWN) ? " (fresh call throws)" : ""));
+                            }
+                        }
+                    });
+                    t.join();
+                    if (!err.empty()) c.fail(f.name.c_str(), "sequence " + show(seq) + ": " + err, "bit-identical result: the result depends only on the arguments", P().list("seq", seq));
+                }
+            }
+        });
+        ctx.traces += ctx.checks[chk].evals;
+        ctx.transitions += 3 * ctx.checks[chk].evals;
+        ctx.state(fnv(chk));
+        (void)o;
     }
     return ctx.finish();
 }
